@@ -55,6 +55,8 @@ impl Helper {
 
             // Reply to the request (the best we can).
             for digest in digests {
+                #[cfg(hotstuff_verif)]
+                network::simnet::emit(format!("\"ev\":\"BatchReplyReq\",\"digest\":\"{}\",\"to\":\"{}\"", network::simnet::hex(&digest.0), network::simnet::hex(&origin.0)));
                 match self.store.read(digest.to_vec()).await {
                     Ok(Some(data)) => self.network.send(address, Bytes::from(data)).await,
                     Ok(None) => (),
